@@ -745,6 +745,28 @@ example : ∀ b, X0.narrow (X0.widen b) = b := by
   intro b
   simp [X0]
 
+/-! ### Recursive Rust types
+
+A `Ty` is a finite tree. A recursive Rust type (`struct Chain { head: u8, tail: Option<Box<Chain>> }`)
+is described by its unfolding to any depth with the empty enum at the cut: the empty enum has no
+value and accepts no input, so the unfolding to depth `n` is exactly the type of the values of depth
+≤ `n`, and `rust_roundtrip_partial` (which quantifies over all `Ty`) applies to every unfolding. -/
+
+theorem empty_enum_has_no_value (x : RVal) : hasTy (.enum []) x = false := by
+  cases x <;> simp [hasTy, hasTyVariant]
+
+theorem empty_enum_rejects_all (X : Ext) (v : Val) : fromKoto X (.enum []) v = none := by
+  simp only [fromKoto, fromVariant]
+  split <;> rfl
+
+/-- `Chain` unfolded twice; the value `Chain { head: 1, tail: Some(Chain { head: 2, tail: None }) }` -/
+example :
+    let chain0 : Ty := .struct [([104], .int .u8), ([116], .option (.enum []))]
+    let chain1 : Ty := .struct [([104], .int .u8), ([116], .option chain0)]
+    let x : RVal := .struct [([104], .int 1), ([116], .some (.struct [([104], .int 2), ([116], .none)]))]
+    wfTy chain1 = true ∧ hasTy chain1 x = true ∧ (toKoto X0 x).bind (fromKoto X0 chain1) = some x := by
+  refine ⟨by decide, by decide, by rfl⟩
+
 /-- The excluded shape really fails (finding F-C20-2): `Some(None)` of type `Option<Option<i64>>`
 is a well-typed value, it serializes to `null`, and `null` reads back as `None`. -/
 theorem rust_roundtrip_nested_option_witness (X : Ext) :
